@@ -315,6 +315,72 @@ func race(k kind, goroutines, trials int) map[string]any {
 	return map[string]any{"min_admitted": minA, "max_admitted": maxA, "histogram": rows}
 }
 
+// raceReopen: a failure report races with callers asking for permission while the breaker is half-open (the
+// protected endpoint fails its probe while others are queueing up); afterwards the endpoint works again: once the
+// timeout has elapsed a probe must be admitted, and successful probes must close the breaker ("no history leaves a
+// breaker open for ever once the protected endpoint works again").
+func raceReopen(k kind, goroutines, trials int) map[string]any {
+	stuck, notClosed := 0, 0
+	minAfter := 1 << 30
+	for t := 0; t < trials; t++ {
+		b := k.mk()
+		for i := 0; i < 1000; i++ {
+			if ph, _, _, _ := b.Obs(); ph == 1 {
+				break
+			}
+			b.Fail()
+		}
+		b.Tick(k.timeout + 2*time.Second)
+		b.Ask() // the first probe: open -> half-open
+		var stop atomic.Bool
+		var warmed atomic.Int32
+		var wg sync.WaitGroup
+		for g := 0; g < goroutines; g++ {
+			wg.Add(1)
+			go func() {
+				defer wg.Done()
+				for n := 0; !stop.Load(); n++ {
+					b.Ask()
+					if n == 32 {
+						warmed.Add(1)
+					}
+				}
+			}()
+		}
+		for int(warmed.Load()) < goroutines {
+			runtime.Gosched() // until every asker is really running
+		}
+		b.Fail() // the probe failed while the others keep asking
+		stop.Store(true)
+		wg.Wait()
+		for i := 0; i < 1000; i++ { // (other breakers may need more than one failure to re-open)
+			if ph, _, _, _ := b.Obs(); ph == 1 {
+				break
+			}
+			b.Fail()
+		}
+		// the endpoint works again
+		b.Tick(k.timeout + 2*time.Second)
+		after := 0
+		for i := 0; i < 16; i++ {
+			if b.Ask() {
+				after++
+				b.Succ()
+			}
+		}
+		if after < minAfter {
+			minAfter = after
+		}
+		if after == 0 {
+			stuck++
+		}
+		if ph, _, _, _ := b.Obs(); ph != 0 {
+			notClosed++
+		}
+	}
+	return map[string]any{"stuck_trials": stuck, "not_closed_trials": notClosed, "min_admitted_after": minAfter, "trials": trials}
+}
+
 func main() {
 	tier := vlib.Tier()
 	thorough := tier == "thorough"
@@ -439,6 +505,16 @@ func main() {
 		}
 		c.Emit(map[string]any{"kind": "race", "b": k.name, "goroutines": 32, "trials": trials, "impl": race(k, 32, trials)})
 		c.Count(k.name + ".race")
+		c.Emit(map[string]any{"kind": "race-reopen", "b": k.name, "goroutines": 8, "trials": trials, "impl": raceReopen(k, 8, trials)})
+		c.Count(k.name + ".race-reopen")
+		if k.name == "unifier" {
+			// the smallest valid configuration (one probe, one success closes): a single lost or stale count is fatal there
+			mcfg := unifier.DefaultConfig().CircuitBreaker
+			mcfg.FailureThreshold, mcfg.SuccessThreshold, mcfg.HalfOpenRequests = 1, 1, 1
+			km := kind{"unifier", func() breaker { return unifierB{unifier.NewCircuitBreaker(mcfg)} }, mcfg.OpenDuration}
+			c.Emit(map[string]any{"kind": "race-reopen", "b": "unifier", "config": "failure=1 success=1 half_open=1", "goroutines": 8, "trials": 2 * trials, "impl": raceReopen(km, 8, 2*trials)})
+			c.Count("unifier.race-reopen.min-config")
+		}
 	}
 	L := 6
 	if thorough {
